@@ -203,6 +203,7 @@ def validate_model(desc: Dict[str, Any], src: str, P: Dict[str, Any], obs: List[
     """Role (b): the abstract interpreter and the stack model must agree with the real
     interpreter at every real suspension.  A mismatch is a harness error, not a verdict."""
     import types as _t
+    from vlib.bc.dyn import is_exit_method as dyn_is_exit_method
 
     an, wmap = P["an"], P["wmap"]
     for ob in obs:
@@ -223,7 +224,7 @@ def validate_model(desc: Dict[str, Any], src: str, P: Dict[str, Any], obs: List[
             if len(real) != len(st):
                 return False
             for t, r in zip(st, real):
-                ism = isinstance(r, _t.MethodType) and r.__func__.__name__ in ("__exit__", "__aexit__")
+                ism = dyn_is_exit_method(r)
                 if (isinstance(t, tuple) and t[0] == "exit") != ism:
                     return False
                 if ism and r.__self__.i != wmap[t[1]][0]:
@@ -283,8 +284,7 @@ def symbolic_leg(e: Engine, P: Dict[str, Any], model: Any, trickery_ref: Any) ->
     next_inner = None
     if exiting is not None:
         d = dummies[wmap[exiting][0]]
-        fn = stubs.DummyManager.__aexit__ if an.with_offsets[exiting] else stubs.DummyManager.__exit__
-        next_inner = stubs.FakeFrame(fn.__code__, 0, {"self": d, "exc": ()})
+        next_inner = stubs.exit_frame_for(d, an.with_offsets[exiting])
     with warnings.catch_warnings(record=True) as w:
         warnings.simplefilter("always")
         with contextlib.redirect_stderr(io.StringIO()):
